@@ -29,4 +29,29 @@ PROPS = {
         ],
         "assumptions": ["Rust f64 comparison is IEEE-754 (Flocq Bcompare)", "powf contract (root) is assumed, sampled"],
     },
+    "C14": {
+        "props": ["Props/C14.v"],
+        "run": ["Run/TermRun.v"],
+        "tables": ["T4"],
+        "n_quick": 400,
+        "n_thorough": 6000,
+        "trusted_base": TB_COMMON + [
+            "std::collections::HashSet modelled as a duplicate-free list in iteration order (iter() and into_iter() of a clone enumerate in the same order)",
+            "hand-written Model/Access.v (get_components, ImageIterator, extract_terms, lexical extraction); tables category/capacity/compsk/extractk/getnamek regenerated from term/impls.rs",
+        ],
+        "assumptions": ["HashSet is a correct set for lawful Hash/Eq (C06/C07)"],
+    },
+    "C17": {
+        "props": ["Props/C17.v"],
+        "run": ["Run/TermRun.v"],
+        "tables": ["T4"],
+        "n_quick": 400,
+        "n_thorough": 6000,
+        "trusted_base": TB_COMMON + [
+            "usize::from_str re-implemented in Base/Dec.v (optional '+', ASCII digits, overflow => error) and proved against Coq's Decimal library; differentially checked on adversarial names",
+            "HashSet::extend modelled as repeated insert keeping the first of two equal elements",
+            "hand-written Model/Mutate.v; tables setnamek/pushk/getnamek/capacity regenerated from term/impls.rs",
+        ],
+        "assumptions": ["HashSet is a correct set for lawful Hash/Eq (C06/C07)"],
+    },
 }
